@@ -43,6 +43,9 @@ func Flt32(f float32) *N { return &N{K: 'f', F: float64(f), F32: true} }
 func Str(s string) *N    { return &N{K: 's', S: s} }
 func Arr(xs ...*N) *N    { return &N{K: 'a', A: xs} }
 func Raw(lit string) *N  { return &N{K: 'r', S: lit} }
+
+// RawMP: these bytes verbatim in a MessagePack body (null in JSON)
+func RawMP(b string) *N { return &N{K: 'x', S: b} }
 func Obj(kvs ...any) *N { // Obj("k", v, "k2", v2 ...)
 	n := &N{K: 'o'}
 	for i := 0; i+1 < len(kvs); i += 2 {
@@ -148,6 +151,8 @@ func (n *N) json(sb *strings.Builder) {
 		}
 	case 'r':
 		sb.WriteString(n.S)
+	case 'x':
+		sb.WriteString("null")
 	case 's':
 		jsonString(sb, n.S)
 	case 'a':
@@ -274,6 +279,8 @@ func (n *N) mp(b []byte) []byte {
 		return append(mpStrHdr(b, len(n.S)), n.S...)
 	case 's':
 		return append(mpStrHdr(b, len(n.S)), n.S...)
+	case 'x':
+		return append(b, n.S...)
 	case 'a':
 		l := len(n.A)
 		switch {
